@@ -72,7 +72,8 @@ LAW_MAX_EDGES = 6
 class C18(Prop):
     pid = "C18"
     rule = ("random graphs with 1-30 vertices (edgeless, disconnected, with self-loops), stars with 1-12 leaves, paths and cycles; "
-            "phi in {0, 1} and on a rational grid; scripted uniform draws on a grid that both avoids and hits phi exactly; "
+            "multigraphs; phi in {0, 1} and on a rational grid; exact law over all outcomes of the draws on graphs of up to 6 edges; the float returned "
+            "must be the quotient k/N itself; scripted uniform draws on a grid that both avoids and hits phi exactly; "
             "non-trivial = at least 3 edges of which some are kept and some dropped; distinct = distinct case")
     assumptions = ["random.random() is i.i.d. uniform on [0,1) (assumed; the check injects the draws)",
                    "networkx connected_components / Graph.copy / remove_edges_from set-level semantics (re-defined in Model/Graph.lean)"]
